@@ -125,7 +125,7 @@ Qed.
 Lemma of_string_wf str s : s >= -1 -> WFr (of_string str s).
 Proof.
   intros Hs. unfold of_string.
-  destruct (match_range_re (trimmed str)) as [[d1 d2]|] eqn:Em; [|unfold WFr; cbn; lia].
+  destruct (match_range_re (qs_trim str)) as [[d1 d2]|] eqn:Em; [|unfold WFr; cbn; lia].
   apply match_re_digits in Em as [D1 D2].
   assert (Hti : forall d, all_digits d = true -> fst (to_int_digits d) >= 0).
   { intros d Hd. unfold to_int_digits. pose proof (digits_val_nonneg d Hd).
@@ -172,7 +172,7 @@ Theorem string_iff str s :
   end.
 Proof.
   unfold str_parts, of_string.
-  destruct (match_range_re (trimmed str)) as [[d1 d2]|] eqn:Em; [|reflexivity].
+  destruct (match_range_re (qs_trim str)) as [[d1 d2]|] eqn:Em; [|reflexivity].
   destruct d1 as [|c1 d1'], d2 as [|c2 d2']; try reflexivity.
   - cbn [big orb]. unfold to_int_digits.
     destruct (digits_val (c2 :: d2') <=? INT_MAX) eqn:E; bz.
